@@ -72,7 +72,7 @@ def cases(tier, seed):
 
 
 def make_context(tier, seed):
-    return S.make_context(tier, seed)
+    return S.make_context(tier, seed, ["finalize"])
 
 
 def namespace():
